@@ -565,15 +565,35 @@ func (c *stickyComp) Run(h *hlib.History) (mons []hlib.Mon, ok bool) {
 	now := t0
 
 	var routedURL string
+	var poolMember string
 	next := http.HandlerFunc(func(w http.ResponseWriter, req *http.Request) {
 		routedURL = req.URL.String()
+		if poolMember != "" { // the rewrite listener has mapped the request under the chosen server's URL
+			routedURL, poolMember = poolMember, ""
+		}
 		w.WriteHeader(200)
 	})
+	// in half of the histories a request rewrite listener maps the resource path under the URL of the server chosen (what
+	// the listener is for): the affinity cookie names the pool member all the same, not the final target
+	var rewrite roundrobin.RequestRewriteListener
+	if (t0/7)%2 == 0 {
+		hlib.Count("histories_with_a_rewrite_listener", 1)
+		rewrite = func(_ *http.Request, nw *http.Request) {
+			poolMember = nw.URL.String()
+			u := *nw.URL
+			u.Path, u.RawPath = strings.TrimSuffix(u.Path, "/")+"/orders/42", ""
+			nw.URL = &u
+		}
+	}
 	var lb lbT
 	var inner lbT // variant 1: the balancer the rebalancer wraps; some servers are administered there directly
 	if variant == 0 {
 		ss := roundrobin.NewStickySession(cookieName).SetCookieValue(cv)
-		rr, err := roundrobin.New(next, roundrobin.EnableStickySession(ss))
+		rrOpts := []roundrobin.LBOption{roundrobin.EnableStickySession(ss)}
+		if rewrite != nil {
+			rrOpts = append(rrOpts, roundrobin.RoundRobinRequestRewriteListener(rewrite))
+		}
+		rr, err := roundrobin.New(next, rrOpts...)
 		if err != nil {
 			return nil, false
 		}
@@ -584,7 +604,11 @@ func (c *stickyComp) Run(h *hlib.History) (mons []hlib.Mon, ok bool) {
 		if err != nil {
 			return nil, false
 		}
-		rb, err := roundrobin.NewRebalancer(rr, roundrobin.RebalancerStickySession(ss))
+		rbOpts := []roundrobin.RebalancerOption{roundrobin.RebalancerStickySession(ss)}
+		if rewrite != nil {
+			rbOpts = append(rbOpts, roundrobin.RebalancerRequestRewriteListener(rewrite))
+		}
+		rb, err := roundrobin.NewRebalancer(rr, rbOpts...)
 		if err != nil {
 			return nil, false
 		}
